@@ -10,7 +10,7 @@
 From Coq Require Import ZArith List Bool Sorted.
 From Low Require Import Lib.Bits Lib.BitSeq Model.BuilderOps Model.BitmapOf Spec.OfSpec
   Proofs.OfProofs Proofs.OfInspect Proofs.OfRoundTrip Proofs.BuilderProofs
-  Model.BitmapMask Spec.MaskSpec Proofs.MaskProofs Model.BitmapFmt Spec.FmtSpec Proofs.FmtProofs
+  Model.BitmapMask12 Spec.MaskSpec12 Proofs.MaskProofs Model.BitmapFmt12 Spec.FmtSpec12 Proofs.FmtProofs12
   Model.Rank Model.BitmapNext Spec.OfQuerySpec Proofs.OfCompose Proofs.OfTotal Proofs.BuilderLen Model.BitmapOf32 Proofs.Of32 Proofs.BuilderEqOf.
 Import ListNotations.
 Open Scope Z_scope.
